@@ -254,7 +254,7 @@ std::string handle(const std::string& op, Args& a)
 		spit(p, b);
 		return run_forked([&](Out& o) { o.list(Import_List(p, u, k)); });
 	}
-	if(op == "c20.imptable")
+	if(op == "c20.imptable" || op == "c20.imptable2")
 	{
 		std::string b = unhex(a.tok());
 		auto us		  = a.dbls();
